@@ -1,8 +1,8 @@
 (* Case checker for C04 (lines fit the width, are greedily filled, truncation honoured): same cases and
    correspondence as Check/C02.v; kind 4 = the C04 oracle (check_width_truncation) fails on the
    implementation's output.  Narrow classifications of known findings:
-   kind 11 (F8) = only the truncated line fails, it carries the truncator, its text ends at the boundary
-                  between two input runs and exceeds the width left beside the truncator;
+   (kind 11, F8 - text + truncator wider than maxWidth on the truncated line - is repaired in the library and no longer
+                  classified: it would be reported as kind 4);
    kind 10 (F7) = only lines fail whose span (up to the next valid UAX #14 candidate for the greedy clause) contains a
                   UAX #14 break opportunity that lies strictly inside a shaped cluster, policy other than Never;
    kind 12 (F22) = only lines fail whose span contains a UAX #14 opportunity that is not a grapheme cluster boundary, or
@@ -31,10 +31,6 @@ Definition exists_between_incl (a b : Z) (f : Z -> bool) : bool :=   (* a < p <=
 Definition intra_cluster_candidate (attrs : list Z) (st : store) (rs : list out) (p : Z) : bool :=
   line_boundary attrs p && negb (cluster_boundary st rs p).
 
-Definition f8_width (rs : list out) (n tsrc trunc_k : Z) (f : lfail) : bool :=
-  lf_width f && negb (lf_greedy f) && negb (lf_misplaced f)
-  && (0 <? trunc_k) && (lf_i f =? trunc_k - 1) && has_truncator tsrc (lf_line f) && interior_run_boundary rs n (lf_e f).
-
 Definition f_stop (attrs : list Z) (st0 : store) (rs : list out) (n policy : Z) (f : lfail) : Z :=
   if lf_greedy f then
     match first_from (lf_e f + 1) (Z.to_nat (n - lf_e f)) (word_break_ok attrs st0 rs n) with Some p => p | None => n end
@@ -57,12 +53,11 @@ Definition c04_kind (c : case) (st0 st1 : store) (cl : call) : nat :=
     else
       let fl := c04_failing attrs st0 st1 rs n tsrc (cl_dir cl) (cl_policy cl) (cl_trunc cl) (o_adv (case_truncator c))
                   (measurable_runs st0 rs) 0 lines (line_spans tsrc 0 lines) (call_line_widths cl) in
-      let is8 := f8_width rs n tsrc (cl_trunc cl) in
       let is7 := f7_line attrs st0 rs n tsrc (cl_policy cl) in
       let is22 := fun f => exists_in (lf_s f) (f_stop attrs st0 rs n (cl_policy cl) f) (lb_not_gb attrs n) in
       (* every failing line must match one of the narrow predicates; the kind reported is that of the first class present *)
-      if forallb (fun f => is8 f || is7 f || is22 f) fl then
-        (if existsb is8 fl then 11%nat else if existsb is7 fl then 10%nat else 12%nat)
+      if forallb (fun f => is7 f || is22 f) fl then
+        (if existsb is7 fl then 10%nat else 12%nat)
       else 4%nat.
 
 Definition check_all (cs : list case) : list (nat * nat) := check_from c04_kind 0 cs.
